@@ -29,6 +29,11 @@ static std::string workload(int k)
     s += "  local.t = \"\" + local.never_set + local.j + ( 1 2 3 ) + 1.5\n";
     s += "  println local.never_set \" \" local.t\n";
     s += "}\n";
+    // warnings whose text is built from per-context tables (field names live in the context's string dictionary)
+    s += "local.ent = NULL\n";
+    s += "local.ent.wfield_of_w" + std::to_string(k) + " = 1\n";
+    s += "local.q = local.ent.rfield_of_w" + std::to_string(k) + "\n";
+    s += "local.q = local.sum[1][2]\n";
     s += "thread other " + std::to_string(k) + "\n";
     s += "wait 0.002\n";
     s += "println \"after wait\"\n";
@@ -94,6 +99,7 @@ static std::string runOne(int idx, int rounds, unsigned seed)
         if ((r + seed) % 2) e.director().Reset();
         for (const std::string& l : e.takeOutput()) { all += l; all += "\n"; }
         all += "idle=" + std::to_string(e.ctx->IsIdle() ? 1 : 0) + " warn=" + std::to_string(e.io.warn.str().size() ? 1 : 0) + "\n";
+        all += e.io.warn.str();
         e.director().Reset();
     }
     all += poolChurn(idx, 4000 * rounds);
